@@ -344,6 +344,12 @@ func GenEngineScript(r *Rng, o EngineGenOpts, hist map[string]int) []string {
 				nb = 10 + r.Intn(30)
 			}
 			stray := r.Chance(1, 4)
+			if c.fsize >= 1<<17 && r.Chance(1, 2) {
+				// the first record of the batch ends 1-6 bytes before a block boundary; the next one follows in the same flush
+				add("bpadto %d %s %d", 1+r.Intn(6), genEngKey(r, hist), r.Intn(99999))
+				add("bput %s %s", genEngKey(r, hist), genEngVal(r, o, c, hist))
+				hist["op_batch_record_ending_in_block_tail"]++
+			}
 			for j := 0; j < nb; j++ {
 				if stray && r.Chance(1, 3) {
 					// a stray call through the handle of the previous, committed batch
@@ -899,6 +905,11 @@ func init() {
 				for _, l := range sc {
 					if strings.HasPrefix(l, "E bputfail ") {
 						l = "E bput " + strings.TrimPrefix(l, "E bputfail ") // the fault depends on the I/O type
+					}
+					if strings.HasPrefix(l, "E bpadto ") {
+						// the computed length depends on where the file ends, which depends on the configuration
+						ff := strings.Fields(l)
+						l = fmt.Sprintf("E bput %s @%d:%s", ff[3], 10, ff[4])
 					}
 					if l == "E closenoflush" {
 						l = "E close"
